@@ -32,14 +32,23 @@ class DS(EventDataset):
 
     async def execute_result_async(self, a, title=None):
         g = Gate()
-        LOG.append((self.name, a, title, g))
+        LOG.append((self, a, title, g))       # the dataset OBJECT that was asked, not its name
         return await g
 
 
-async def override_exe(a, title=None):
-    g = Gate()
-    LOG.append(("OVERRIDE", a, title, g))
-    return await g
+class OverrideExe:
+    "an override executor that is a callable object and, like an empty batching queue, falsy"
+
+    def __len__(self):
+        return 0
+
+    async def __call__(self, a, title=None):
+        g = Gate()
+        LOG.append((self, a, title, g))
+        return await g
+
+
+override_exe = OverrideExe()
 
 
 class Boom(Exception):
@@ -52,16 +61,16 @@ def P(s):
 
 D = [DS("A"), DS("B"), DS("C")]
 STREAMS = [
-    D[0].Select(P("lambda e: e.x")),
-    D[1].Select(P("lambda e: e.x")),
-    D[0].Select(P("lambda e: e.x")).MetaData({}).Where(P("lambda e: e.x > 1")),
+    D[0].Select(P("lambda e: (e.x, MetaData(e.run, e.lumi))")),      # a user function that happens to be called MetaData: not a wrapper
+    D[1].QMetaData({"k": 2}).Select(P("lambda e: e.x")),
+    D[0].Select(P("lambda e: e.x")).MetaData({}).MetaData({}).Where(P("lambda e: e.x > 1")).MetaData({}),   # stacked empty wrappers
     D[1].Where(P("lambda e: e.x > 1")).AsAwkwardArray(["c"]),
     D[2].MetaData({}).MetaData({"a": 1}).SelectMany(P("lambda e: e.js")).QMetaData({"q": 1}).AsPandasDF(["c"]),
     D[2].Select(P("lambda e: e.Jets().Select(lambda j: j.pt)")).AsROOTTTree("f.root", "t", ["c"]),
     D[0],
     D[1].QMetaData({"k": 2}).MetaData({}).Select(P("lambda e: (e.x, e.y)")).AsParquetFiles("f.pq", ["a", "b"]),
 ]
-OWNER = ["A", "B", "A", "B", "C", "C", "A", "B"]
+OWNER = [D[0], D[1], D[0], D[1], D[2], D[2], D[0], D[1]]
 BUILT_WITHOUT_EXECUTION = len(LOG) == 0
 
 
@@ -123,9 +132,9 @@ def sched(nstreams, n, ws, os_, fail, ovr, title):
         return "extra executor calls"
     for i, w in enumerate(which):
         nm, a, t, g = LOG[i]
-        want = "OVERRIDE" if (ovr >> i) & 1 else OWNER[w]
-        if nm != want:
-            return "execution %d of stream %d went to executor %s instead of %s" % (i, w, nm, want)
+        want = override_exe if (ovr >> i) & 1 else OWNER[w]
+        if nm is not want:
+            return "execution %d of stream %d went to %s instead of %s" % (i, w, getattr(nm, "name", "the override executor"), getattr(want, "name", "the override executor"))
         if t is not title:
             return "title altered"
         with nt():
@@ -135,8 +144,9 @@ def sched(nstreams, n, ws, os_, fail, ovr, title):
                 root = find_EventDataset(a)
             except Exception as e:
                 return "find_EventDataset failed on a derived query: %s" % e
-            if root is not ROOTS[w]:
-                return "find_EventDataset returned another node than the stream's dataset node"
+            # the root node may be a copy of the dataset's own node (QMetaData annotates a copy): it must be a dataset node that carries the dataset object
+            if root is not ROOTS[w] and not (isinstance(root, ast.Call) and ast.dump(root) == ast.dump(ROOTS[w]) and getattr(root, "_eds_object", None) is OWNER[w]):
+                return "find_EventDataset returned a node that is not the stream's dataset node (nor a copy of it that carries the dataset object)"
     return ""
 
 
